@@ -376,6 +376,42 @@ def x1_save_preparation(ctx):
                       f"geogram: the exporter reads mesh.{fld} attribute '{nm}' unconditionally but save() does not have it created",
                       f"save() prepares {sorted(made)} before a geogram export of a volume mesh; a missing attribute makes every "
                       f"such save raise", note=f"geogram: save() creates {fld}.{nm} before the export reads it")
+    # a lazily cached value of the raw mesh (its dimensionality) must not be computed before the containers it is derived from are
+    # emptied: the exporters choose what to write from it
+    lazy = lazy_properties(repo)
+    raws = {n2 for st in au.stmts(save.body) for n2, v in sym.split_assign(st) if isinstance(v, ast.Call) and au.call_tail(v) == "RawMeshData"}
+    order = {id(n): i for i, n in enumerate(au.walk_ordered(save))}
+    writes = [c for c in au.calls(save) if au.call_tail(c) == "write_by_extension"]
+    for prop, (field, deps, computes) in sorted(lazy.items()):
+        reads = [n for n in au.walk(save) if isinstance(n, ast.Attribute) and n.attr == prop and isinstance(n.ctx, ast.Load)
+                 and isinstance(n.value, ast.Name) and n.value.id in raws]
+        clears = [c for c in au.calls(save) if au.call_tail(c) in ("clear", "pop", "remove") and isinstance(c.func.value, ast.Attribute)
+                  and isinstance(c.func.value.value, ast.Name) and c.func.value.value.id in raws and c.func.value.attr in deps]
+        resets = [n for n in au.walk(save) if (isinstance(n, ast.Assign) and any(isinstance(t, ast.Attribute) and t.attr == field
+                                                                                 and isinstance(t.value, ast.Name) and t.value.id in raws for t in n.targets))
+                  or (isinstance(n, ast.Call) and au.call_tail(n) in computes and isinstance(n.func, ast.Attribute)
+                      and isinstance(n.func.value, ast.Name) and n.func.value.id in raws)]
+        for r in reads:
+            def exclusive(x, y):
+                ax = [a for a in au.ancestors(x)]
+                for a in au.ancestors(y):
+                    if isinstance(a, ast.If) and any(a is b2 for b2 in ax):
+                        inb = lambda n_, blk: any(any(n_ is z for z in ast.walk(s_)) for s_ in blk)
+                        if (inb(x, a.body) and inb(y, a.orelse)) or (inb(x, a.orelse) and inb(y, a.body)):
+                            return True
+                return False
+            later = [c for c in clears if order.get(id(c), 0) > order.get(id(r), 0) and not exclusive(r, c)]
+            if not later or not writes:
+                continue
+            last = max(order.get(id(c), 0) for c in later)
+            fixed = any(last < order.get(id(x), 0) < max(order.get(id(w), 0) for w in writes) for x in resets)
+            ctx.check(fixed, "C04-X1", ctx.site(MESH, save0, r),
+                      f"save(): the cached {prop} of the raw mesh is computed before its {'/'.join(sorted({c.func.value.attr for c in later}))} "
+                      f"are emptied and is not recomputed",
+                      f"RawMeshData.{prop} is cached in {field} on first access; read here, then the containers it is derived from are cleared "
+                      f"(ignore_elements): the exporters see the {prop} of the un-stripped mesh (export_obj then takes the hard-edge branch for a "
+                      f"wireframe export and writes no edge: the file loads back as a point cloud)",
+                      note=f"save(): {prop} recomputed after the containers are emptied")
     # ignore_elements
     ps = au.params(save)
     ig = ps[2] if len(ps) > 2 else None
@@ -416,6 +452,42 @@ def x1_save_preparation(ctx):
                   f"save(): ignoring '{key}' leaves {sorted(wantf - got)} filled",
                   f"the exporters write corner / facet containers of elements that are no longer in the file",
                   note=f"save(): ignoring '{key}' clears {sorted(got)}")
+
+
+def lazy_properties(repo):
+    """{property name: (cache field, container fields it is derived from, names of the methods that recompute it)} for the
+    properties of RawMeshData of the form `if self._x is None: <compute>; return self._x`"""
+    out = {}
+    mod = repo.module(hc_text.MESHDATA)
+    cls = mod.classes.get("RawMeshData")
+    if cls is None:
+        return out
+    methods = {st.name: st for st in cls.body if isinstance(st, ast.FunctionDef)}
+    for name, fn in methods.items():
+        if not any(isinstance(d, ast.Name) and d.id == "property" for d in fn.decorator_list):
+            continue
+        rets = [s_ for s_ in au.stmts(fn.body) if isinstance(s_, ast.Return) and au.is_self_attr(s_.value)]
+        if len(rets) != 1:
+            continue
+        field = rets[0].value.attr
+        tests = [s_ for s_ in au.stmts(fn.body) if isinstance(s_, ast.If) and field in au.src(s_.test) and "None" in au.src(s_.test)]
+        if not tests:
+            continue
+        deps, computes, todo, seen = set(), set(), [fn], set()
+        while todo:
+            f2 = todo.pop()
+            if f2.name in seen:
+                continue
+            seen.add(f2.name)
+            for n in au.walk(f2):
+                if au.is_self_attr(n) and n.attr in cc.KINDS:
+                    deps.add(n.attr)
+                if isinstance(n, ast.Call) and au.is_self_attr(n.func) and n.func.attr in methods:
+                    todo.append(methods[n.func.attr])
+                    computes.add(n.func.attr)
+        if deps:
+            out[name] = (field, deps, computes)
+    return out
 
 
 # ----------------------------------------------------------------------- C04-A1
